@@ -180,11 +180,11 @@ def _area_trapezoid(f, start, end, lv, out_len):
     return tot
 
 
-def extendsplit(S, d, lmin, lmax, version, nrbe, auto, pool, cap, out_len):
+def extendsplit(S, d, lmin, lmax, version, nrbe, auto, pool, cap, out_len, grid_kind='trapezoid', real_benefits=False):
     """Extend-split with solver-chosen refinement histories up to the evaluation cap (every cap = another stopping point)."""
     f = lib.make_function(S, 'F', d, out_len)
     box = (0.0, 1.0)
-    sa, op, a, b, res = es.run_es(S, d, lmin, lmax, box, True, version, nrbe, auto, False, pool, cap, f)
+    sa, op, a, b, res = es.run_es(S, d, lmin, lmax, box, True, version, nrbe, auto, False, pool, cap, f, grid_kind=grid_kind, real_benefits=real_benefits)
     result = list(np.ravel(res[3]))
     S.prove(len(result) == out_len, 'extendsplit:result-has-one-entry-per-output-component')
     S.observe('areas', len(es.leaves(sa)))
@@ -194,17 +194,48 @@ def extendsplit(S, d, lmin, lmax, version, nrbe, auto, pool, cap, out_len):
             lv, do_compute = sa.coarsen_grid(cg.levelvector, area)
             if not do_compute:
                 continue
-            part = _area_trapezoid(f, area.start, area.end, lv, out_len)
+            if grid_kind == 'trapezoid':
+                part = _area_trapezoid(f, area.start, area.end, lv, out_len)
+            else:
+                # high-order local grid: the same rule on a FRESH grid object (the rule itself is C08/C10; here only the bookkeeping is at stake)
+                from sparseSpACE import Grid as G
+                fresh = G.LagrangeGrid(a=np.array(a, dtype=float), b=np.array(b, dtype=float), boundary=True, p=2)
+                part = list(np.ravel(fresh.integrate(f, [int(x) for x in lv], area.start, area.end)))
             for j in range(out_len):
                 tot[j] = tot[j] + cg.coefficient * part[j]
     S.prove(sym_and(*[S.eq(result[j], tot[j]) for j in range(out_len)]), 'extendsplit:result-is-coefficient-weighted-sum-over-areas-and-component-grids')
     again = list(np.ravel(sa.evaluate_final_combi()[0]))
     S.prove(sym_and(*[S.eq(result[j], again[j]) for j in range(out_len)]), 'extendsplit:evaluate_final_combi-reproduces-result')
     f2 = lib.make_function(S, 'F', d, out_len)
-    sa2, op2, a2, b2, res2 = es.run_es(S, d, lmin, lmax, box, True, version, nrbe, auto, False, pool, cap, f2, reevaluate=True)
+    sa2, op2, a2, b2, res2 = es.run_es(S, d, lmin, lmax, box, True, version, nrbe, auto, False, pool, cap, f2, reevaluate=True, grid_kind=grid_kind, real_benefits=real_benefits)
     r2 = list(np.ravel(res2[3]))
     S.prove(len(es.leaves(sa2)) == len(es.leaves(sa)), 'extendsplit:reevaluate_at_end-same-refinement')
     S.prove(sym_and(*[S.eq(result[j], r2[j]) for j in range(out_len)]), 'extendsplit:reevaluate_at_end-does-not-change-result')
+
+
+def es_estimate_helpers(S, d, lmin, lmax, version, out_len, cap):
+    """The extend/split benefit estimation evaluates extra combinations on an area (get_parent_extend_operation -> evaluate_operation_area_complete_flexibel
+    -> Integration.evaluate_area_for_error_estimates).  It must be an observation: the area's stored value - which is what is subtracted from the running
+    result when the area is refined - and the running result itself are the same afterwards, and the error correction is value minus the coarser
+    combination.  (The real benefit formulas, quotients of these quantities, are outside; this is the part of them that touches the bookkeeping.)"""
+    f = lib.make_function(S, 'F', d, out_len)
+    sa, op, a, b, res = es.run_es(S, d, lmin, lmax, (0.0, 1.0), True, version, 1, False, False, 1, cap, f)
+    leaves = es.leaves(sa)
+    k = S.choice('leaf', len(leaves))
+    area = leaves[k]
+    value0 = [x for x in np.ravel(area.value)]
+    result0 = [x for x in np.ravel(op.get_result())]
+    coarsening0 = int(area.coarseningValue)
+    area.switch_to_parent_estimation = True
+    sa.get_parent_extend_operation(area)
+    S.prove(sym_and(*[S.eq(x, y) for x, y in zip(np.ravel(area.value), value0)]), 'estimate:area-value-unchanged-by-the-extend-benefit-estimation')
+    S.prove(sym_and(*[S.eq(x, y) for x, y in zip(np.ravel(op.get_result()), result0)]), 'estimate:running-result-unchanged-by-the-extend-benefit-estimation')
+    S.prove(int(area.coarseningValue) == coarsening0, 'estimate:coarsening-value-restored')
+    corr = area.parent_info.get_extend_error_correction()
+    S.prove(corr is not None and len(np.ravel(corr)) == out_len, 'estimate:error-correction-computed')
+    # removing the area afterwards subtracts exactly what it contributed
+    op.process_removed_objects([area])
+    S.prove(sym_and(*[S.eq(x, y - v) for x, y, v in zip(np.ravel(op.get_result()), result0, value0)]), 'estimate:removing-the-area-afterwards-subtracts-its-contribution')
 
 
 def jobs(tier):
@@ -218,6 +249,9 @@ def jobs(tier):
             js.append(Job('extendsplit[d=%d,l=%d-%d,v=%d,nrbe=%d%s,out=%d,cap=%d]' % (d, lmin, lmax, version, nrbe, ',auto' if auto else '', out_len, cap), extendsplit,
                           {'d': d, 'lmin': lmin, 'lmax': lmax, 'version': version, 'nrbe': nrbe, 'auto': auto, 'pool': 1 if (q and auto) else 2, 'cap': cap, 'out_len': out_len},
                           validate=(7 if q else 3), budget_s=(600 if q else 3000)))
+    for (version, out_len, cap) in ([(0, 1, 30), (0, 2, 45)] if q else [(0, 1, 30), (0, 2, 45), (1, 1, 45), (2, 2, 60)]):
+        js.append(Job('es-estimate[d=2,l=1-2,v=%d,out=%d,cap=%d]' % (version, out_len, cap), es_estimate_helpers,
+                      {'d': 2, 'lmin': 1, 'lmax': 2, 'version': version, 'out_len': out_len, 'cap': cap}, validate=(3 if q else 1), budget_s=(600 if q else 3000)))
     if tier == 'quick':
         cfgs = [(2, 1, 2, v, b, o, 2) for v in (6, 3) for b in (True, False) for o in (1, 2)]
     else:
